@@ -644,7 +644,7 @@ pub fn run(tier: &str, seed: u64) -> i32 {
     samples.push(json!({"kind": "history", "mode": 2, "calls": ["flavor", "flat", "off"], "meaning": "three calls, alternately on two persistent threads, in one fresh process; each result compared with the call made alone"}));
 
     // ---- 3. schedules
-    let budget_s: u64 = std::env::var("VERIF_WALL_CAP_S").ok().and_then(|s| s.parse().ok()).unwrap_or(if thorough { 18 * 60 } else { 240 });
+    let budget_s: u64 = std::env::var("VERIF_WALL_CAP_S").ok().and_then(|s| s.parse().ok()).unwrap_or(if thorough { 10 * 60 } else { 240 });
     let small: Vec<usize> = (0..n).filter(|&i| a[i].text.len() < 75).collect();
     let mut sets: Vec<(usize, String)> = vec![]; // (bound, programs)
     // 2 threads x 1 call: all unordered pairs over the whole alphabet; the preemption bound depends
